@@ -168,12 +168,9 @@ namespace sqf::parser::sqf
                     // Check if line comment start
                     if (is_match_repeated<2, '/'>(iter))
                     {
-                        // find line comment end
+                        // find line comment end, the newline is left to the whitespace that follows
+                        // (it is what counts the line)
                         while (++iter < m_end && !is_match<'\n'>(iter));
-
-                        // update position info
-                        m_line++;
-                        m_column = 0;
 
                         // set length
                         len = iter - m_current;
@@ -185,6 +182,7 @@ namespace sqf::parser::sqf
                     {
                         ++iter;
                         ++iter;
+                        m_column += 2;
                         // find block comment end
                         while (iter < m_end && !(is_match<'*'>(iter) && is_match<'/'>(iter + 1)))
                         {
@@ -201,11 +199,12 @@ namespace sqf::parser::sqf
                             ++iter;
                         }
 
-                        // EOF check
-                        if (is_match<'/'>(iter) && is_match<'/'>(iter + 1))
+                        // Skip the terminator (there is none if the input ended inside the comment)
+                        if (is_match<'*'>(iter) && is_match<'/'>(iter + 1))
                         {
                             ++iter;
                             ++iter;
+                            m_column += 2;
                         }
                         // set length
                         len = iter - m_current;
